@@ -272,6 +272,9 @@ mod sx {
         "https://x.com/foo1bar", "https://a.ads.net/x", "https://x.com/baz/qux", "https://x.com/ad12", "https://x.com/plain", "https://x.com/tagged1rule",
         // requests whose answers carry per-request data (different rewritten URLs)
         "https://x.com/p?utm=1&a=2", "https://x.com/q?ref=9&b=3&utm=2",
+        // blocked (foo*bar), excepted (@@baz^qux) and rewritten (utm) at once: the longest path
+        // through check_parameterised, every lookup of it under the lock
+        "https://x.com/baz/qux?utm=1&k=foo1bar",
     ];
 
     pub fn engine() -> Engine {
@@ -309,6 +312,7 @@ mod sx {
             ("2x3", vec![vec![Check(2), Csp, Check(0)], vec![Cosmetic, Check(0), Check(2)]]),
             ("2x2-mixed", vec![vec![Cosmetic, Check(5)], vec![Csp, Hidden]]),
             ("2x2-rewrite", vec![vec![Check(6), Check(0)], vec![Check(7), Check(6)]]),
+            ("2x2-excepted", vec![vec![Check(8), Check(0)], vec![Check(2), Check(8)]]),
         ]
     }
 
@@ -436,14 +440,22 @@ mod sx {
         }
     }
 
-    pub fn sequential_expectation(plan: &[Vec<Q>]) -> Vec<Vec<String>> {
-        // the single-thread answers of a fresh engine (no scheduler active on this thread)
-        plan.iter()
-            .map(|ops| {
-                let e = engine();
-                ops.iter().map(|q| ask(&e, *q)).collect()
-            })
-            .collect()
+    /// The single-thread answers of a fresh engine per thread of the plan. They are computed
+    /// under the scheduler too (a one-thread plan has exactly one schedule), so that a thread that
+    /// blocks on a lock it holds itself is reported as a deadlock instead of hanging the explorer.
+    pub fn sequential_expectation(plan: &[Vec<Q>]) -> Result<Vec<Vec<String>>, String> {
+        let mut out = vec![];
+        for ops in plan {
+            let o = run_once(&[], &[ops.clone()]);
+            if o.deadlock {
+                return Err(format!("deadlock: a single thread running {:?} blocks on a lock it already holds", ops));
+            }
+            if let Some(p) = o.panicked {
+                return Err(format!("panic: a single thread running {:?} panicked at {}", ops, p));
+            }
+            out.push(o.results[0].clone());
+        }
+        Ok(out)
     }
 
     /// Child mode: explore one plan to one bound; print a JSON summary.
@@ -455,7 +467,19 @@ mod sx {
         install();
         let plans = plans();
         let (name, plan) = &plans[plan_idx];
-        let expect = sequential_expectation(plan);
+        let expect = match sequential_expectation(plan) {
+            Ok(e) => e,
+            Err(what) => {
+                let kind = if what.starts_with("deadlock") { "deadlock" } else { "panic" };
+                println!(
+                    "{}",
+                    json!({"plan": name, "plan_idx": plan_idx, "bound": bound, "schedules": 1, "points": 0, "distinct_traces": 1, "max_blocked_events_in_one_schedule": 1, "divergences": 0,
+                           "violations": [{"kind": format!("single-thread-{}", kind), "schedule": [], "what": what, "replayed_identically": sequential_expectation(plan).is_err()}],
+                           "default_schedule_replays_identically": true, "sample_trace": [], "wall_s": 0.0})
+                );
+                return;
+            }
+        };
         let mut st = Stats { schedules: 0, points: 0, traces: HashSet::new(), violations: vec![], max_blocked: 0, divergences: 0 };
         let t0 = std::time::Instant::now();
         explore(vec![], bound, plan, &expect, &mut st);
@@ -485,7 +509,10 @@ mod sx {
         let pi = case["plan_idx"].as_u64().unwrap_or(0) as usize;
         let (_, plan) = &plans[pi.min(plans.len() - 1)];
         let choices: Vec<usize> = case["schedule"].as_array().map(|a| a.iter().filter_map(|v| v.as_u64().map(|x| x as usize)).collect()).unwrap_or_default();
-        let expect = sequential_expectation(plan);
+        let expect = match sequential_expectation(plan) {
+            Ok(e) => e,
+            Err(what) => return Some(what),
+        };
         let o = run_once(&choices, plan);
         if o.divergence {
             eprintln!("machinery: schedule diverged while replaying its prefix");
@@ -521,7 +548,7 @@ fn sync_main(tier: vh::Tier) -> i32 {
         let max_bound = match (tier, *name) {
             (vh::Tier::Quick, "3x2") => 1, // 3x2 with 2 preemptions is 10 660 schedules (~40 s): thorough only
             (vh::Tier::Quick, _) => 2,
-            (vh::Tier::Thorough, "2x2") | (vh::Tier::Thorough, "2x2-mixed") | (vh::Tier::Thorough, "2x2-rewrite") => 4,
+            (vh::Tier::Thorough, "2x2") | (vh::Tier::Thorough, "2x2-mixed") | (vh::Tier::Thorough, "2x2-rewrite") | (vh::Tier::Thorough, "2x2-excepted") => 4,
             (vh::Tier::Thorough, _) => 3,
         };
         for b in 0..=max_bound {
@@ -663,7 +690,7 @@ fn sync_main(tier: vh::Tier) -> i32 {
     }
     ctx.finish(
         "model_checking",
-        "(a) every interleaving of the thread plans (2x2, 3x1, 3x2, 2x3, 2x2-mixed, 2x2-rewrite: real OS threads on one shared real engine of the Sync build, regex-heavy rules, always-discard policy) with at most k preemptions, k = 0..bound, explored by stateless DFS; scheduling points at the real regex-manager lock (try_lock decides blocking) and inside the critical section; oracle per schedule: every answer equals the single-thread answer of a fresh engine, no panic, no deadlock, lock not poisoned; (b) one engine per list of C01's quick universe (+ cosmetic rules): all answers hashed by the single-thread build and recomputed by the thread-safe build; states = distinct traces + engines, transitions = scheduling points + queries; non-trivial = distinct traces",
+        "(a) every interleaving of the thread plans (2x2, 3x1, 3x2, 2x3, 2x2-mixed, 2x2-rewrite, 2x2-excepted: real OS threads on one shared real engine of the Sync build, regex-heavy rules, always-discard policy) with at most k preemptions, k = 0..bound, explored by stateless DFS; scheduling points at the real regex-manager lock (try_lock decides blocking) and inside the critical section; oracle per schedule: every answer equals the single-thread answer of a fresh engine, no panic, no deadlock, lock not poisoned; (b) one engine per list of C01's quick universe (+ cosmetic rules): all answers hashed by the single-thread build and recomputed by the thread-safe build; states = distinct traces + engines, transitions = scheduling points + queries; non-trivial = distinct traces",
         &[
             "no preemption between two scheduling points: sound if no shared mutable state is touched outside the lock (checked separately, non-exhaustively, by a free-running Miri pass in the thorough tier)",
             "weak-memory behaviours below the mutex are not modelled",
